@@ -145,9 +145,12 @@ META = dict(
                  "under contract too, with the same memory model (request = heap object of exactly in_size octets, response room = the output buffer): Read By Type (handler, all_attributes, "
                  "collect_attributes, check_size_and_handle_range; units of C02.py: MTU <= 48 / 12 attributes and MTU <= 300 / 4 attributes in the quick tier), Find Information (handler "
                  "and collect_handle_uuid_tuples with a loop contract; C02fi.py), Prepare Write / Execute Write and the write queue (C07.py), the functors of Find By Type Value and Read "
-                 "By Group Type (constructors, each< Service >(), value filter, group collector, read_primary_service_response; C03.py). NOT under contract: the two handler bodies "
-                 "handle_find_by_type_value_request / handle_read_by_group_type_request, which run those functors through details::for_< services >::each (iteration over a type list): "
-                 "they enter l2cap_input by the framing contract only (response opcode or Error Response, length not increased)",
+                 "By Group Type (constructors, each< Service >(), value filter, group collector, read_primary_service_response; C03.py). The two handler bodies handle_find_by_type_value_request / "
+                 "handle_read_by_group_type_request are under contract in unit group_handlers (C01gh.py: framing, sizes, error codes, response length) over a SUMMARY of what "
+                 "details::for_< services >::each( functor ) does to the output buffer; that summary is proved: for Find By Type Value in unit group_iteration (real bodies of the group "
+                 "collector, services_by_group::each and all_services_by_group; for_<>::each as a loop with a loop contract over a symbolic list of up to 5 services - that "
+                 "for_<>::each IS that loop is the one fact taken from the type level); for Read By Group Type in unit group_iteration_rbgt (real bodies of the constructor and of "
+                 "collect_primary_services::each in the same kind of loop; read_primary_service_response by its contract, restated relationally from C03.py)",
                  "abstract attribute table: index_by_handle returns an index below number_of_attributes or invalid_attribute_index (C04); "
                  "attribute_at(i).access is any function satisfying the ACCESS contract (writes at most buffer_size bytes of a read buffer, never "
                  "grows buffer_size) - proved for the value, CCCD and declaration access functions in C06 / C09, assumed for service, include and "
